@@ -184,9 +184,16 @@ def _gen_rand_case(rng, force):
             n = rng.choice([1, 1, 2, 3, 4, 5, 6, 7, 8, 8])
             if crowded:
                 n = rng.choice([700, 1000, 1201])
+            stop = None
+            if crowded and _ == 0 and force.get("long_stop"):
+                # a long stop: more than a thousand fixes of one track within a few centimetres (one cell, or two)
+                n = rng.choice([1100, 1501])
+                stop = (rng.uniform(0.2 * W, 0.8 * W), rng.uniform(0.2 * H, 0.8 * H))
             pts = []
             for k in range(n):
-                if pts and rng.random() < 0.2:
+                if stop and 20 <= k < n - 20:
+                    x, y = stop[0] + rng.uniform(-0.01, 0.01), stop[1] + rng.uniform(-0.01, 0.01)
+                elif pts and rng.random() < 0.2:
                     x, y = pts[rng.randrange(len(pts))][:2]            # repeated position
                 elif profile == "lattice":
                     x, y = rng.randint(0, 2 * W) / 2, rng.randint(0, 2 * H) / 2
@@ -307,7 +314,8 @@ def cases(chunk):
         if n % 100 == 37:
             # larger scale: tracks of about a thousand observations on a coarse grid (hundreds of values per cell)
             force["crowded"] = True
-            force["nan"] = rng.choice(["free", "sprinkle"])
+            force["long_stop"] = rng.random() < 0.6
+            force["nan"] = rng.choice(["free", "sprinkle", "first", "sprinkle"])
             force["profile"] = "random"
         yield _gen_rand_case(rng, force)
 
@@ -334,7 +342,7 @@ def _expected(name, vals, nodata):
 
 # the aggregated feature's name: ordinary, or a legal name that resembles the documented pseudo-feature 'uid'
 # (a substring or a superstring of it, another case)
-FEATURE_NAMES = ["v", "id", "u", "d", "ui", "i", "uid2", "UID", "V", "v"]
+FEATURE_NAMES = ["v", "id", "u", "d", "ui", "i", "uid2", "UID", "V", "v", "xy", "zt", "dx"]
 
 
 def _fname(case):
@@ -411,6 +419,12 @@ def run_case(case, ctx):
         cls.add("feature_name_resembling_uid")
     if nobs >= 1000:
         cls.add("crowded_cells_hundreds_of_values")
+        from collections import Counter
+        near = Counter((round(p[0], 1), round(p[1], 1)) for t in tracks for p in t)
+        if near and max(near.values()) > 1000:
+            cls.add("long_stop_more_than_1000_values_in_a_cell")
+            if any(p[2] is None for t in tracks for p in t):
+                cls.add("long_stop_more_than_1000_values_in_a_cell_with_nan")
     del SEEN[:]
     out = M.call(_summarise, case)
     if M.is_raised(out):
@@ -634,7 +648,8 @@ def classify(case, witness):
 # floors for the call-history workloads added in session 3 (a run in which they were silently skipped is inconclusive)
 _floors_base = floors
 _FLOORS_EXTRA = {'monitors': {'second_addCollection.same_bands': 300}, 'classes': {'median_requested_before_another_aggregate': 1000,
-                                                                                       'feature_name_resembling_uid': 1000, 'crowded_cells_hundreds_of_values': 20}}
+                                                                                       'feature_name_resembling_uid': 1000, 'crowded_cells_hundreds_of_values': 20,
+ 'long_stop_more_than_1000_values_in_a_cell_with_nan': 4}}
 
 
 def floors(tier):
